@@ -8,6 +8,13 @@ PROPS = ['C08', 'C05']
 T = 'src/types.rs'
 
 
+# mutation canaries (thorough tier): textual mutations of the EXTRACTED copy that must each fail an obligation of the named item
+MUTANTS = [
+    ('types::SourceMapIndex::lookup_token', 'if line == off_line \\{ col - off_col \\} else \\{ col \\}', 'col.saturating_sub(off_col)'),
+    ('types::SourceMapIndex::lookup_token', 'line - off_line', 'line'),
+]
+
+
 def build(u):
     u.use_overlay('u7_index.ctr')
     prelude_types(u)
